@@ -157,6 +157,57 @@ def stdout_sections(fam, tier):
                     return
 
 
+def unopenable_files(fam, tier):
+    """a file that exists but cannot be opened (mode 000, the formatter running as an unprivileged user): it must be
+    reported, make the exit status non-zero and leave the others to their stand-alone results"""
+    import subprocess, stat
+    setpriv = shutil.which("setpriv")
+    if not setpriv or os.geteuid() != 0:
+        fam.count("c18free.unopenable-skipped(no setpriv or not root)")
+        return
+    drop = [setpriv, "--reuid=65534", "--regid=65534", "--clear-groups"]
+    with cli.Sandbox("c18f-perm") as sb:
+        os.chmod(sb.dir, 0o755)
+        probe = subprocess.run(drop + [cli.CLI, "--version"], stdout=subprocess.PIPE, stderr=subprocess.PIPE)
+        if probe.returncode != 0:
+            fam.count("c18free.unopenable-skipped(cannot run the binary as an unprivileged user)")
+            return
+        cache = {}
+        for mode in ("files", "check"):
+            for threads in (1, 2, 4):
+                d = sb.path("p")
+                shutil.rmtree(d, ignore_errors=True)
+                os.makedirs(d)
+                os.chmod(d, 0o777)
+                content = b"a   ;b  ;\n"
+                ok, formatted = solo(sb, cache, content)
+                paths = []
+                for i in range(5):
+                    pth = os.path.join(d, f"f{i}.pas")
+                    open(pth, "wb").write(content)
+                    os.chmod(pth, 0o000 if i == 2 else 0o666)
+                    paths.append(pth)
+                r = subprocess.run(drop + [cli.CLI, "--config-file", sb.empty_cfg, f"--mode={mode}"] + paths,
+                                   stdout=subprocess.PIPE, stderr=subprocess.PIPE, env=dict(os.environ, RAYON_NUM_THREADS=str(threads)))
+                fam.case(nontrivial=True)
+                fam.transitions += 1
+                case = {"oracle": "c18free", "unopenable": "f2.pas", "mode": mode, "threads": threads, "no_confirm": True}
+                text = r.stderr.decode("utf-8", "replace")
+                if r.returncode == 0:
+                    fam.fail("C18", "free-running:exit-status", f"exit 0 although f2.pas cannot be opened ({mode} mode, {threads} threads); stderr {text[:200]!r}", case)
+                    continue
+                if not any(l.startswith("ERROR") and "f2.pas" in l for l in text.splitlines()):
+                    fam.fail("C18", "free-running:error-reports-differ", f"the unopenable file is not reported; stderr {text[:300]!r}", case)
+                    continue
+                for i, pth in enumerate(paths):
+                    os.chmod(pth, 0o666)
+                    got = open(pth, "rb").read()
+                    want = content if (i == 2 or mode == "check") else formatted
+                    if got != want:
+                        fam.fail("C18", "free-running:file-differs-from-solo-result", f"f{i}.pas next to an unopenable file: {got[:40]!r} != {want[:40]!r}", case)
+                        break
+
+
 def explore(tier, seed):
     kinds = list(KINDS)
     batches = []
@@ -183,6 +234,7 @@ def explore(tier, seed):
             fam.stats["violations"] += st["violations"]
     exit_status_counts(fam, tier)
     stdout_sections(fam, tier)
+    unopenable_files(fam, tier)
     fam.states = fam.len
     fam.samples = [{"kinds": list(batches[3]), "threads": threads}]
     return [fam]
